@@ -109,3 +109,25 @@ CORPUS += [
       "                self._abort(\"protocol error\")\n                raise e", "S",
       also=[(L, "    def _disconnect(self) -> None:\n        if self._protocol:", "    def _abort(self, reason: str) -> None:\n        _LOGGER.debug(\"Aborting: %s\", reason)\n        self._disconnect()\n\n    def _disconnect(self) -> None:\n        if self._protocol:")]),
 ]
+# F9 (fixed in /repo e41f534): a handshake abandoned by cancellation closes the connection - re-introduced, it must be reported again
+CORPUS += [
+    M("f9-cancelled-handshake-keeps-connection", L, """            except asyncio.CancelledError:
+                # The response to the abandoned handshake is still in flight, don't reuse this connection
+                _LOGGER.warning("Authentication cancelled. Disconnecting.")
+                self._disconnect()
+                raise
+""", ""),
+    M("f9-cancelled-handshake-only-logged", L, """                _LOGGER.warning("Authentication cancelled. Disconnecting.")
+                self._disconnect()
+                raise
+""", """                _LOGGER.warning("Authentication cancelled.")
+                raise
+"""),
+    M("n-f9-disconnect-before-log", L, """                _LOGGER.warning("Authentication cancelled. Disconnecting.")
+                self._disconnect()
+                raise
+""", """                self._disconnect()
+                _LOGGER.warning("Authentication cancelled. Disconnecting.")
+                raise
+""", "S"),
+]
